@@ -107,7 +107,12 @@ def main():
         want = 65536 if stem.startswith("big") else 32768
         if n != want:
             raise MachineryError(f"instance construction: {stem} alone uses n={n}, expected {want}")
+    sres = tlc("Cli", "Cli_swap", timeout=600)
+    run.notes["negative_config_swapped_options_breaks_OptionsReachWriter"] = (sres.violated == "OptionsReachWriter")
+    if sres.violated != "OptionsReachWriter":
+        raise MachineryError("the swapped-options configuration did not produce the expected counterexample")
     uniq = {}
+    optsets = sorted({tuple(c["opts"]) for c in configs})
     for c in configs:
         uniq[(tuple(c["files"]), c["nproc"])] = c
     keys = sorted(uniq)
@@ -145,8 +150,12 @@ def main():
         pro_file = "pro.json" if ci % 2 == 0 else "pro2.json"
         cur_refs = refs if pro_file == "pro.json" else refs2
         dist_opts = []
-        if ci % 3 == 1:
-            dist_opts = ["--distribution_mc", "normal", "--distribution_fn", "lognormal"] if pro_file == "pro.json" else ["--distribution_mc", "lognormal", "--distribution_fn", "normal"]
+        opts = ("lognormal", "lognormal")
+        if ci % 3 == 1:     # option values from the specification's OptSets with distribution_mc # distribution_fn
+            opts = ("normal", "lognormal") if pro_file == "pro.json" else ("lognormal", "normal")
+            if opts not in optsets:
+                raise MachineryError(f"the option pair {opts} is not among the specification's OptSets {optsets}")
+            dist_opts = ["--distribution_mc", opts[0], "--distribution_fn", opts[1]]
             cur_refs = refs3 if pro_file == "pro.json" else refs4
         cmd = [sys.executable, "-c", "from hvsrpy.cli import cli; cli()", "--no_figure", "--nproc", str(nproc)] + dist_opts + [
                "--preprocessing_settings_file", "pre.json" if pro_file == "pro.json" else "pre2.json",
@@ -163,7 +172,7 @@ def main():
             ev.append(dict(pid=int(pid), sid=int(sid), file=fname.replace(".mseed", ""), nb=NCLASS.get(None if nb == "None" else int(nb), 9),
                            na=NCLASS.get(None if na == "None" else int(na), 9)))
         # with an explicit n in the settings file every task legitimately starts from class 1 (32 768): class 0/1 coincide
-        runs.append(dict(files=list(files), nproc=nproc, ev=[dict(file=e["file"], nb=e["nb"], na=e["na"]) for e in ev]))
+        runs.append(dict(files=list(files), nproc=nproc, opts=list(opts), ev=[dict(file=e["file"], nb=e["nb"], na=e["na"]) for e in ev]))
         key_cfg = f"files={list(files)} nproc={nproc} settings={pro_file} options={dist_opts}"
         for f in files:
             out = os.path.join(wd, f"{f}.csv")
